@@ -253,10 +253,10 @@ def filedescFieldFeatures (parent : GoFeatures) (ov : Overrides) (packedOpt : Op
     | none => parent
   mergeGo p ov
 
-/-- `IsLazy()` of an extension: `filedesc.(*Extension).unmarshalOptions` records `lazy`,
-`protodesc.initExtensionDeclarations` never sets `x.L1.IsLazy`. -/
+/-- `IsLazy()` of an extension: `filedesc.(*Extension).unmarshalOptions` records `lazy`, and (since 5c0ecc9)
+`protodesc.initExtensionDeclarations` sets `x.L1.IsLazy = opts.GetLazy()`. -/
 def filedescExtIsLazy (lazyOpt : Bool) : Bool := lazyOpt
-def protodescExtIsLazy (_lazyOpt : Bool) : Bool := false
+def protodescExtIsLazy (lazyOpt : Bool) : Bool := lazyOpt
 
 /-- `if f.L1.EditionFeatures.IsLegacyRequired { f.L1.Cardinality = Required }` (message fields only). -/
 def cardinalityOf (label : Nat) (f : GoFeatures) (isExtension : Bool) : Nat :=
@@ -284,19 +284,25 @@ def isPacked (card kind : Nat) (f : GoFeatures) : Bool :=
 
 def enforceUTF8 (f : GoFeatures) : Bool := f.isUTF8Validated
 
-/-- `strs.EnforceUTF8(fd)` as the codecs call it (build tag protolegacy, or an editions file):
-`if fd, ok := fd.(interface{ EnforceUTF8() bool }); ok { return fd.EnforceUTF8() }; return fd.Syntax() == Proto3`.
-`*filedesc.Field` has the method, `*filedesc.Extension` does NOT, so extensions fall through to the syntax test.
-`edition` = 999 is proto3. -/
-def runtimeEnforceUTF8 (edition : Nat) (isExtension : Bool) (f : GoFeatures) : Bool :=
-  if isExtension then edition == editionProto3 else f.isUTF8Validated
+/-- `(*filedesc.Field).EnforceUTF8()` and (since c1ca555) `(*filedesc.Extension).EnforceUTF8()`. -/
+def descriptorEnforceUTF8 (f : GoFeatures) : Bool := f.isUTF8Validated
+
+/-- `strs.EnforceUTF8(fd)` AS THE CODECS CALL IT (build tag protolegacy, or an editions file):
+```
+if xtd, ok := fd.(protoreflect.ExtensionTypeDescriptor); ok { fd = xtd.Descriptor() }   // c7b40f5
+if fd, ok := fd.(interface{ EnforceUTF8() bool }); ok { return fd.EnforceUTF8() }
+return fd.Syntax() == Proto3
+```
+A message field reaches it as `*filedesc.Field`; an extension reaches it wrapped in an `ExtensionTypeDescriptor`
+(`impl` / `dynamicpb`), is unwrapped to its `*filedesc.Extension`, and the method (c1ca555) answers. -/
+def runtimeEnforceUTF8 (_edition : Nat) (_isExtension : Bool) (f : GoFeatures) : Bool := descriptorEnforceUTF8 f
 def isClosed (f : GoFeatures) : Bool := !f.isOpenEnum
 
 /-- `protodesc.initEnumDeclarations`: the enum's own `features` are merged. -/
 def protodescEnumFeatures (parent : GoFeatures) (ov : Overrides) : GoFeatures := mergeGo parent ov
-/-- `filedesc.(*Enum).unmarshalSeed`: `ed.L1.EditionFeatures = featuresFromParentDesc(ed.Parent())` and the
-enum's options are never looked at (the enum-level `features` are ignored). -/
-def filedescEnumFeatures (parent : GoFeatures) (_ov : Overrides) : GoFeatures := parent
+/-- `filedesc.(*Enum).unmarshalSeed`: `ed.L1.EditionFeatures = featuresFromParentDesc(ed.Parent())`, then (since
+e5f41ee) `unmarshalSeedOptions` merges `EnumOptions.features` with `unmarshalFeatureSet`. -/
+def filedescEnumFeatures (parent : GoFeatures) (ov : Overrides) : GoFeatures := mergeGo parent ov
 
 /-! ## The pre-editions rules (protobuf-go ≤ v1.31, `internal/filedesc/desc.go`) -/
 
